@@ -132,7 +132,9 @@ type EvalResult struct {
 	Returns  bool // some return is on an executable path
 	Panics   bool // some panic/no-return call is on an executable path
 	ExecBlks map[*ssa.BasicBlock]bool
-	Vals     map[ssa.Value]AVal
+	// ExecEdges[{from,to}] is set for every edge proved executable.
+	ExecEdges map[[2]*ssa.BasicBlock]bool
+	Vals      map[ssa.Value]AVal
 }
 
 func NewEvaluator(p *Program) *Evaluator {
@@ -316,6 +318,10 @@ func (e *Evaluator) eval(fn *ssa.Function, args []AVal, free []AVal, depth int) 
 		}
 	}
 	res.ExecBlks = execBlk
+	res.ExecEdges = map[[2]*ssa.BasicBlock]bool{}
+	for ed := range execEdge {
+		res.ExecEdges[[2]*ssa.BasicBlock{ed.from, ed.to}] = true
+	}
 	res.Vals = vals
 	if len(e.Loads) == 0 && len(e.Values) == 0 {
 		e.cache[key] = res
